@@ -292,7 +292,7 @@ def classify_text(t):
 
 # ---------------------------------------------------------------- random layouts
 
-WS = [" ", "  ", "\t", "\n", "\r\n", " \n  ", ""]
+WS = [" ", "  ", "\t", "\n", "\r\n", "\r", " \n  ", "\r\r", "\t\r", ""]
 
 
 def needs_sep(a, b):
